@@ -17,6 +17,17 @@ Definition check_run (t : node) (force : bool) (ds : list draw) (expected : list
   | _ => false
   end.
 
+(* the same for the top-level pipeline object, the per-transform checks recorded as 0 *)
+Definition check_run_top (chk : bool) (t : node) (force : bool) (ds : list draw) (expected : list nat) : bool :=
+  match t with
+  | Comp p kids =>
+      match run_top unit (fun _ d => d) chk p kids force tt ds with
+      | Some (_, tr, []) => nat_list_eqb tr expected
+      | _ => false
+      end
+  | _ => false
+  end.
+
 Fixpoint bad_idx (n : nat) (l : list bool) : list nat :=
   match l with
   | [] => []
